@@ -39,15 +39,16 @@ def apply_word(modes, word, vec):
         elif w[0]=='c': vec={s:a*w[1] for s,a in vec.items()}
     return vec
 def nof_apply(modes, nof, ops, placeholders, st):
-    """apply a NumberOrderedForm (pymablock object) to basis state st using term semantics"""
+    """apply a NumberOrderedForm (pymablock object) to basis state st using term semantics; the form may list a subset of `ops`, in its own order"""
     out={}
+    nops=list(nof.args[0]); idx=[ops.index(o) for o in nops]
     for powers,coeff in nof.args[1]:
         powers=[int(p) for p in powers]
         vec={st:Fraction(1)}
         # annihilators: rightmost is operators[0]; apply a_0 first ... per as_expr: coeff * op_last^p ... * op_first^p
-        for k in range(len(ops)):
+        for k in range(len(nops)):
             if powers[k]>0:
-                for _ in range(powers[k]): vec=apply_gen(modes,k,False,vec)
+                for _ in range(powers[k]): vec=apply_gen(modes,idx[k],False,vec)
         new={}
         for s,a in vec.items():
             val=coeff.xreplace({placeholders[k]:sympy.Integer(s[k]) for k in range(len(ops))}).subs({sym:1 for sym in coeff.free_symbols if sym not in placeholders})
@@ -55,8 +56,8 @@ def nof_apply(modes, nof, ops, placeholders, st):
             if not val.is_Rational: raise ValueError(f'non-rational coefficient value {val} from {coeff} at {s} powers {powers}')
             new[s]=a*Fraction(int(val.p),int(val.q))
         vec=new
-        for k in reversed(range(len(ops))):
+        for k in reversed(range(len(nops))):
             if powers[k]<0:
-                for _ in range(-powers[k]): vec=apply_gen(modes,k,True,vec)
+                for _ in range(-powers[k]): vec=apply_gen(modes,idx[k],True,vec)
         for s,a in vec.items(): out[s]=out.get(s,0)+a
     return {s:a for s,a in out.items() if a!=0}
